@@ -1220,6 +1220,16 @@ impl Writer {
       // SN.
       if pending_gaps.contains(&unsent_sn) || all_irrelevant_before.is_some() {
         no_longer_relevant.extend(pending_gaps);
+      } else if self
+        .history_buffer
+        .get_by_sn(unsent_sn)
+        .and_then(|cc| cc.write_options.to_single_reader())
+        .is_some_and(|single_reader_guid| single_reader_guid != reader_guid)
+      {
+        // The sample was written for some other reader only, so it is not relevant
+        // to this one. This reader may have no pending GAP for it, e.g. if it was
+        // matched after the write. Send a GAP, or the reader waits for it forever.
+        no_longer_relevant.insert(unsent_sn);
       } else {
         // Reader not pending gap on unsent_sn. Get the cache change from topic cache
         if let Some(cc) = self.history_buffer.get_by_sn(unsent_sn) {
